@@ -22,7 +22,7 @@ import (
 func init() {
 	Registry["C07"] = &Check{
 		Scenarios: c07Scenarios,
-		Rule: "A multistream association serving requests on streams 3 and 5 while an application goroutine sends a stream-less request with retries through a transport that takes 10 octets and reports a temporary error (per stream, the octets written are whole messages). A Server with ReadTimeout 500 ms and no WriteTimeout whose handler answers through a transport that stalls 900 ms mid-write, an application goroutine writing behind it (384 B and 5 KiB messages, virtual clock). schedules: W in {2,3} writer threads, 1-2 messages each with sizes from {200 B, 2 KiB, 5 KiB} (below/above the 1 KiB pooled serialisation buffer and the 4 KiB bufio buffer) written to one diam.Conn through Message.WriteTo, Conn.Write with caller-serialised bytes and Message.WriteToStreamWithRetry (rotating per writer and message) over an in-memory transport whose Write stalls between two pieces; every schedule up to the preemption bound (W=2: bound 2 quick / unbounded thorough; W=3: bound 2 / 3), happens-before state caching. faults: every sequence of write outcomes (bytes accepted k in {0,1,n/2,n-1,n} x {temporary - alternately a plain one and one that is also a timeout -, permanent, nil}) of length <= retries+1 for retries 0..3, and of length <=3 for the retry budgets 2^31, 2^32, 2^63, 2^64-2 and 2^64-1 (what a caller passes to mean 'keep retrying'), against writeRetry (io.Writer) and writeStreamRetry (MultistreamWriter), and through a diam.Conn over a faulting transport with two messages of sizes {200+2048, 5000+200, 200+5000, 4116+6000} (below and above the connection's 4 KiB write buffer): the wire must hold every message whose write returned nil, whole, once and in order, a failed write contributes a prefix of its message, and nothing may follow a torn message. write-timeout: two writers on a connection served with WriteTimeout 800 ms over a transport that stalls the first write 600 ms and the second 400 ms (virtual clock, preemption bound 3): both succeed, both messages whole. stale-connection: a write to a connection that has ended, after a new connection was created, never reaches the new connection's transport. close-during-write: one writer (200 / 4096 / 5120 bytes) whose transport write stalls half way and an application goroutine closing the connection at every instant (preemption bound 3): the transport never receives more than a prefix of the message. sizes: every message size 32..8300 (multiples of four) through WriteTo / Conn.Write / WriteToWithRetry on a fault-free connection: the transport holds exactly the message as soon as the write has returned.",
+		Rule: "Messages of 36..1100 bytes whose last AVP takes 1..3 padding octets, written after a longer message of another shape through the same connection: the transport holds exactly the serialisation. A multistream association serving requests on streams 3 and 5 while an application goroutine sends a stream-less request with retries through a transport that takes 10 octets and reports a temporary error (per stream, the octets written are whole messages). A Server with ReadTimeout 500 ms and no WriteTimeout whose handler answers through a transport that stalls 900 ms mid-write, an application goroutine writing behind it (384 B and 5 KiB messages, virtual clock). schedules: W in {2,3} writer threads, 1-2 messages each with sizes from {200 B, 2 KiB, 5 KiB} (below/above the 1 KiB pooled serialisation buffer and the 4 KiB bufio buffer) written to one diam.Conn through Message.WriteTo, Conn.Write with caller-serialised bytes and Message.WriteToStreamWithRetry (rotating per writer and message) over an in-memory transport whose Write stalls between two pieces; every schedule up to the preemption bound (W=2: bound 2 quick / unbounded thorough; W=3: bound 2 / 3), happens-before state caching. faults: every sequence of write outcomes (bytes accepted k in {0,1,n/2,n-1,n} x {temporary - alternately a plain one and one that is also a timeout -, permanent, nil}) of length <= retries+1 for retries 0..3, and of length <=3 for the retry budgets 2^31, 2^32, 2^63, 2^64-2 and 2^64-1 (what a caller passes to mean 'keep retrying'), against writeRetry (io.Writer) and writeStreamRetry (MultistreamWriter), and through a diam.Conn over a faulting transport with two messages of sizes {200+2048, 5000+200, 200+5000, 4116+6000} (below and above the connection's 4 KiB write buffer): the wire must hold every message whose write returned nil, whole, once and in order, a failed write contributes a prefix of its message, and nothing may follow a torn message. write-timeout: two writers on a connection served with WriteTimeout 800 ms over a transport that stalls the first write 600 ms and the second 400 ms (virtual clock, preemption bound 3): both succeed, both messages whole. stale-connection: a write to a connection that has ended, after a new connection was created, never reaches the new connection's transport. close-during-write: one writer (200 / 4096 / 5120 bytes) whose transport write stalls half way and an application goroutine closing the connection at every instant (preemption bound 3): the transport never receives more than a prefix of the message. sizes: every message size 32..8300 (multiples of four) through WriteTo / Conn.Write / WriteToWithRetry on a fault-free connection: the transport holds exactly the message as soon as the write has returned.",
 		Assume: []string{"data-race freedom between visible operations (audited separately with -race)", "the source rewriter and shims preserve Go semantics (shim unit tests)"},
 		QuickBudget: 100, ThoroughBudget: 1500,
 	}
@@ -74,6 +74,7 @@ func c07Scenarios(tier string) []*Scenario {
 	out = append(out, &Scenario{Name: "faults/writeStreamRetry", Seq: func(r *SeqResult) { c07Faults(r, true) }})
 	out = append(out, &Scenario{Name: "faults/through-conn", Seq: c07ConnFaults})
 	out = append(out, &Scenario{Name: "sizes/single-writer", Seq: c07Sizes})
+	out = append(out, &Scenario{Name: "sizes/padding-after-another-message", Seq: c07Padding})
 	out = append(out, &Scenario{Name: "stale-connection-write", Seq: c07StaleConn})
 	out = append(out, c07WriteTimeout(3))
 	for _, size := range []int{384, 5120} {
@@ -546,6 +547,64 @@ func c07Sizes(r *SeqResult) {
 				r.Case = map[string]interface{}{"size": size, "route": route}
 			}
 		}
+	}
+}
+
+// c07Padding: messages whose last AVP needs 1..3 padding octets, written after a longer message of
+// another shape went through the same connection (and the same pooled serialisation buffer): the
+// transport holds exactly the message's serialisation - padding octets are zero, not leftovers.
+func c07Padding(r *SeqResult) {
+	for size := 36; size <= 1100; size += 4 {
+		for pad := 1; pad <= 3; pad++ {
+			for route := 0; route < 2; route++ {
+				size, pad, route := size, pad, route
+				var viol string
+				s := vs.Run(nil, false, 0, false, func() {
+					conn := vnet.NewConn("S")
+					conn.Pieces = 1
+					c, err := diam.NewConn(conn, "peer", diam.NewServeMux(), dict.Default)
+					if err != nil {
+						viol = err.Error()
+						return
+					}
+					dirty := c07msg(25, 0, size+16) // 'z' all over the buffer, 16 octets longer
+					if _, err := dirty.WriteTo(c); err != nil {
+						viol = err.Error()
+						return
+					}
+					conn.Out = nil
+					m := diam.NewMessage(280, 0x80, 0, 1, 1, dict.Default)
+					m.NewAVP(avp.OriginHost, avp.Mbit, 0, datatype.DiameterIdentity(strings.Repeat("a", size-28-pad)))
+					want, _ := m.Serialize()
+					if route == 0 {
+						_, err = m.WriteTo(c)
+					} else {
+						_, err = m.WriteToWithRetry(c, 2)
+					}
+					if err != nil {
+						viol = fmt.Sprintf("write failed on a fault-free transport: %v", err)
+						return
+					}
+					if !bytes.Equal(conn.Out, want) {
+						i := 0
+						for i < len(want) && i < len(conn.Out) && conn.Out[i] == want[i] {
+							i++
+						}
+						viol = fmt.Sprintf("the transport holds %d bytes that differ from the message's serialisation (%d bytes) at offset %d", len(conn.Out), len(want), i)
+					}
+				})
+				s.Teardown()
+				r.Cases++
+				r.Distinct++
+				if viol != "" && r.Violation == "" {
+					r.Violation = fmt.Sprintf("message of %d bytes whose last AVP takes %d padding octets, written through %s after a longer message of another shape: %s", size, pad, []string{"Message.WriteTo", "Message.WriteToWithRetry"}[route], viol)
+					r.Case = map[string]interface{}{"size": size, "pad": pad, "route": route}
+				}
+			}
+		}
+	}
+	if r.Sample == "" {
+		r.Sample = "messages of 36..1100 bytes with 1..3 padding octets behind the last AVP, after a longer message through the same connection"
 	}
 }
 
